@@ -57,3 +57,26 @@ let run_ploop (id, lines) =
   if not !st.p_closed then Printf.printf "%s model-not-closed\n" id
 
 let () = Cmds.table := ("ploop", fun path -> List.iter run_ploop (read_cases path)) :: !Cmds.table
+
+(* aloop: aggregator model.  K start solutions, K runs; run r (1-based) starts from start solution K-r (the stack of start
+   solutions is popped from the end); its solver sends its start solution first and then every improvement (srun); the
+   aggregator (ainit / arecv) filters what it receives. *)
+let run_aloop (id, lines) =
+  let starts = ref [] and runs = ref [] in
+  List.iter (fun fs ->
+    match fs with
+    | "astarts" :: l -> starts := List.map z_of_string l
+    | "arun" :: l -> runs := !runs @ [List.map z_of_string l]
+    | _ -> ()) lines;
+  match !starts with
+  | [] -> Printf.printf "%s delivered\n" id
+  | s0 :: rest ->
+      let k = List.length !starts in
+      let received = List.concat (List.mapi (fun r ws ->
+          let start = List.nth !starts (k - 1 - r) in
+          let st = srun start (List.map (fun w -> { ex_resets = []; ex_work = w; ex_can_improve = true }) ws) in
+          List.rev st.s_sent) !runs) in
+      let a = arun s0 rest received in
+      Printf.printf "%s delivered %s\n" id (String.concat " " (List.map string_of_z (List.rev a.a_out)))
+
+let () = Cmds.table := ("aloop", fun path -> List.iter run_aloop (read_cases path)) :: !Cmds.table
